@@ -628,6 +628,9 @@ pub enum Signal {
 	Noise { seed: u64, amp: f32 },
 	/// sine of the given cycles-per-frame
 	Sine { cpf: f32, amp: f32 },
+	/// +amp, 0, -amp, 0, ...: every other frame is exactly zero (an infinite gain then gives
+	/// isolated non-finite frames, 0 x inf)
+	Gapped { amp: f32 },
 }
 
 #[derive(Clone, Copy, Debug, Serialize, Deserialize, PartialEq)]
@@ -656,6 +659,11 @@ impl DataSpec {
 				let v = (i as f32 * cpf * std::f32::consts::TAU).sin() * amp;
 				Frame::new(v, v * 0.5)
 			}
+			Signal::Gapped { amp } => match i % 4 {
+				0 => Frame::new(amp, amp),
+				2 => Frame::new(-amp, -amp),
+				_ => Frame::ZERO,
+			},
 		}
 	}
 	pub fn frames(&self) -> Vec<Frame> {
